@@ -639,6 +639,8 @@ impl<'a, C: Crypto + 'a> CaseP<'a, C> {
     /// # Arguments
     /// - `crypto` - The crypto provider
     /// - `fabric` - The local fabric
+    /// - `tt_hash` - The transcript hash over Sigma1 and Sigma2 (i.e. taken _before_
+    ///   Sigma3 itself is added to the transcript)
     /// - `signature` - The Sigma3 signature
     /// - `out` - The output buffer to write the encrypted data to
     ///
@@ -646,14 +648,15 @@ impl<'a, C: Crypto + 'a> CaseP<'a, C> {
     /// - `Ok(usize)` - The length of the encrypted data written to `out`
     /// - `Err(Error)` - If an error occurred during the process
     pub fn sigma3_encrypt(
-        &mut self,
+        &self,
         crypto: &C,
         fabric: &Fabric,
+        tt_hash: HashRef<'_>,
         signature: CanonPkcSignatureRef<'_>,
         out: &mut [u8],
     ) -> Result<usize, Error> {
         let mut sigma3_key = AEAD_KEY_ZEROED;
-        self.compute_sigma3_key(crypto, fabric.ipk().op_key(), &mut sigma3_key)?;
+        self.compute_sigma3_key(crypto, fabric.ipk().op_key(), tt_hash, &mut sigma3_key)?;
 
         let mut tw = WriteBuf::new(out);
 
@@ -696,8 +699,12 @@ impl<'a, C: Crypto + 'a> CaseP<'a, C> {
         ipk: CanonAeadKeyRef<'_>,
         encrypted: &mut [u8],
     ) -> Result<usize, Error> {
+        // Get transcript hash (Sigma1 and Sigma2 only at this point)
+        let mut tt_hash = HASH_ZEROED;
+        self.current_tt_hash(&mut tt_hash)?;
+
         let mut sigma3_key = AEAD_KEY_ZEROED;
-        self.compute_sigma3_key(crypto, ipk, &mut sigma3_key)?;
+        self.compute_sigma3_key(crypto, ipk, tt_hash.reference(), &mut sigma3_key)?;
         // println!("Sigma3 Key: {:x?}", sigma3_key);
 
         let encrypted_len = encrypted.len();
@@ -712,21 +719,20 @@ impl<'a, C: Crypto + 'a> CaseP<'a, C> {
     ///
     /// # Arguments
     /// - `ipk` - The IPK
+    /// - `tt_hash` - The transcript hash
     /// - `key` - The output buffer to write the Sigma3 key to
     ///
     /// # Returns
     /// - `Ok(())` - If the Sigma3 key was successfully derived
     /// - `Err(Error)` - If an error occurred during the process
     fn compute_sigma3_key(
-        &mut self,
+        &self,
         crypto: &C,
         ipk: CanonAeadKeyRef<'_>,
+        tt_hash: HashRef<'_>,
         key: &mut CanonAeadKey,
     ) -> Result<(), Error> {
         const S3K_INFO: [u8; 6] = [0x53, 0x69, 0x67, 0x6d, 0x61, 0x33];
-
-        let mut tt_hash = HASH_ZEROED;
-        self.current_tt_hash(&mut tt_hash)?;
 
         let mut salt = CryptoSensitive::<{ AEAD_CANON_KEY_LEN + HASH_LEN }>::new();
 
